@@ -6,6 +6,7 @@ MODULES = {
     "C03": "harness.c03_tables",
     "C04": "harness.c04_address",
     "C05": "harness.c05_frame",
+    "C08": "harness.c08_gearseq",
     "C12": "harness.c12_events",
     "C14": "harness.c14_colour",
 }
